@@ -93,6 +93,9 @@ func runReal(c *Ctx) error {
 			}
 			ad := strings.ReplaceAll(strings.Replace(realAdapter, "PKG", pkg, 1), "NAME", string(m[1]))
 			os.WriteFile(filepath.Join(dir, "adapter.go"), []byte(ad), 0o644)
+			if g.file != "peg.peg" {
+				copySiblings(filepath.Join(ws.Repo, g.file), dir, pkg)
+			}
 			patterns = append(patterns, "./zzreal/"+pkg)
 			for n := 0; n <= g.n; n++ {
 				jobs = append(jobs, &Job{PkgPath: pegPkg + "/zzreal/" + pkg, Entry: "Run", Args: []int{n}, Label: "real:" + g.file + ":" + optName[vn], NoSamples: n != g.n})
@@ -120,4 +123,25 @@ func runReal(c *Ctx) error {
 	c.Bounds["shipped_grammars"] = "calculator, calculatorast, fexl, longtest (N<=3..4), c, java, peg.peg (N<=2); default options and -inline -switch; from the first rule"
 	c.Process(res, func(j *Job) *NativeRunner { return runners[j.PkgPath] })
 	return nil
+}
+
+// copySiblings copies the hand-written Go files next to a shipped grammar (types its actions
+// use) into dir with the package clause renamed.
+func copySiblings(grammarFile, dir, pkg string) {
+	src := filepath.Dir(grammarFile)
+	ents, err := os.ReadDir(src)
+	if err != nil {
+		return
+	}
+	for _, e := range ents {
+		n := e.Name()
+		if e.IsDir() || !strings.HasSuffix(n, ".go") || strings.HasSuffix(n, "_test.go") || strings.HasSuffix(n, ".peg.go") {
+			continue
+		}
+		data, err := os.ReadFile(filepath.Join(src, n))
+		if err != nil {
+			continue
+		}
+		os.WriteFile(filepath.Join(dir, "zz_"+n), []byte(pkgRe.ReplaceAllString(string(data), "package "+pkg)), 0o644)
+	}
 }
